@@ -149,9 +149,10 @@ Proof.
   cbn [ssl]. rewrite Hc. cbn [andb]. now apply IH.
 Qed.
 
-(* ---- steps of the scanner: what was consumed, and the line *)
+(* ---- steps of the scanner: what was consumed, and the line (after fix 6970deb the line breaks of
+        tokens are counted like those of whitespace, so the invariant needs no side condition) *)
 Definition step_ok (s : str) (ln : Z) (s' : str) (ln' : Z) : Prop :=
-  exists k, s = k ++ s' /\ k <> [] /\ ln' = (ln + lf k)%Z /\ ssl false s' = true.
+  exists k, s = k ++ s' /\ k <> [] /\ ln' = (ln + lf k)%Z.
 
 (* where an error points: [k] is what was consumed before it, [r] what remains *)
 Definition err_site (c : N) (k r : str) : Prop :=
@@ -165,13 +166,13 @@ Definition step_err (s : str) (ln : Z) (c : N) (l : Z) : Prop :=
 
 Lemma step_ok_trans s ln s1 ln1 s2 ln2 : step_ok s ln s1 ln1 -> step_ok s1 ln1 s2 ln2 -> step_ok s ln s2 ln2.
 Proof.
-  intros (k1 & -> & Hk1 & -> & _) (k2 & -> & Hk2 & -> & H2).
+  intros (k1 & -> & Hk1 & ->) (k2 & -> & Hk2 & ->).
   exists (k1 ++ k2). split; [now rewrite app_assoc|]. split; [destruct k1; [congruence|discriminate]|].
-  split; [rewrite lf_app; lia|exact H2].
+  rewrite lf_app; lia.
 Qed.
 Lemma step_ok_err s ln s1 ln1 c l : step_ok s ln s1 ln1 -> step_err s1 ln1 c l -> step_err s ln c l.
 Proof.
-  intros (k1 & -> & _ & -> & _) (k2 & r & -> & -> & Hsite).
+  intros (k1 & -> & _ & ->) (k2 & r & -> & -> & Hsite).
   exists (k1 ++ k2), r. split; [now rewrite app_assoc|]. split; [rewrite lf_app; lia|].
   destruct Hsite as [H|[H|(Hc & [H|(k' & name & -> & H)])]]; [left; exact H|right; left; exact H| |].
   - right; right. split; [exact Hc|left; exact H].
@@ -179,35 +180,34 @@ Proof.
 Qed.
 Lemma step_ok_suffix s ln s' ln' : step_ok s ln s' ln' -> no_cr s = true -> no_cr s' = true /\ (length s' < length s)%nat.
 Proof.
-  intros (k & -> & Hk & _ & _) H. split; [now apply no_cr_app in H|].
+  intros (k & -> & Hk & _) H. split; [now apply no_cr_app in H|].
   rewrite app_length. destruct k; [congruence|cbn; lia].
 Qed.
 
-Lemma required_inv ps ae s ln : In P_NAME ps \/ In P_LBRACE ps -> no_cr s = true -> ssl false s = true ->
+Lemma required_inv ps ae s ln : In P_NAME ps \/ In P_LBRACE ps -> no_cr s = true ->
   match required ps ae s ln with
-  | Ok ((p, v), (s', ln')) => step_ok s ln s' ln' /\ exists g, s = g ++ v ++ s' /\ all_space g /\ match_pat p (v ++ s') = Some (v, s') /\ ln' = (ln + lf g)%Z /\ In p ps
+  | Ok ((p, v), (s', ln')) => step_ok s ln s' ln' /\ exists g, s = g ++ v ++ s' /\ all_space g /\ match_pat p (v ++ s') = Some (v, s') /\ ln' = (ln + lf g + lf v)%Z /\ In p ps
   | PyErr c l => step_err s ln c l /\ (c = cls_eof -> ae = true)
   | _ => False
   end.
 Proof.
-  intros Hin Hcr Hssl. unfold required, get_token, eat_whitespace.
+  intros Hin Hcr. unfold required, get_token, eat_whitespace.
   destruct (span is_space s) as [g r] eqn:E. destruct (span_decomp _ _ _ _ E) as (-> & Hg & Hr).
   destruct (no_cr_app _ _ Hcr) as [Hcrg Hcrr].
   rewrite (nl_count_nocr g Hcrg).
-  assert (Hsr : ssl false r = true).
-  { rewrite ssl_noquote in Hssl; [exact Hssl|]. apply (forallb_impl _ _ _ space_not_quote Hg). }
   destruct r as [|x r'].
   - destruct ae; cbn [bind].
     + split; [|reflexivity]. exists g, []. split; [reflexivity|]. split; [reflexivity|]. left; reflexivity.
     + split; [|discriminate]. exists g, []. split; [reflexivity|]. split; [reflexivity|]. right; left. split; reflexivity.
   - destruct (first_match ps (x :: r')) as [[[p v] r'']|] eqn:Ef; cbn [bind fst snd].
     + pose proof (first_match_in _ _ _ _ _ Ef) as Hinp.
-      apply first_match_inv in Ef. destruct (match_pat_inv _ _ _ _ Ef) as (Heq & Hv & Hs).
-      destruct (Hs Hsr) as [Hlf Hs'].
+      apply first_match_inv in Ef. destruct (match_pat_inv _ _ _ _ Ef) as (Heq & Hv & _).
+      assert (Hcrv : no_cr v = true) by (rewrite Heq in Hcrr; now apply no_cr_app in Hcrr).
+      rewrite (nl_count_nocr v Hcrv).
       split.
       * exists (g ++ v). split; [rewrite Heq, app_assoc; reflexivity|].
         split; [destruct v; [congruence|destruct g; discriminate]|].
-        split; [rewrite lf_app, Hlf; lia|exact Hs'].
+        rewrite lf_app; lia.
       * exists g. split; [rewrite Heq; reflexivity|]. split; [exact Hg|]. split; [rewrite <- Heq; exact Ef|split; [reflexivity|exact Hinp]].
     + split; [|discriminate]. exists g, (x :: r'). split; [reflexivity|]. split; [reflexivity|].
       right; right. split; [reflexivity|left]. exists x, r'. split; [reflexivity|].
@@ -239,85 +239,71 @@ Definition inv_result {X} (s : str) (ln : Z) (r : res (X * state)) : Prop :=
 
 Lemma In_name_group : In P_NAME group_pats. Proof. left; reflexivity. Qed.
 
-Lemma parse_group_inv : forall fuel s ln, no_cr s = true -> ssl false s = true ->
+Lemma parse_group_inv : forall fuel s ln, no_cr s = true ->
   inv_result s ln (parse_group fuel s ln).
 Proof.
-  induction fuel as [|f IH]; intros s ln Hcr Hssl; [exact I|].
+  induction fuel as [|f IH]; intros s ln Hcr; [exact I|].
   cbn [parse_group].
-  pose proof (required_inv group_pats false s ln (or_introl In_name_group) Hcr Hssl) as Hreq.
+  pose proof (required_inv group_pats false s ln (or_introl In_name_group) Hcr) as Hreq.
   destruct (required group_pats false s ln) as [[[p v] [s1 ln1]]|c l| |]; cbn [bind]; try exact I.
   2:{ destruct Hreq as [Herr Hc]. split; [exact Herr|]. intros ->. specialize (Hc eq_refl). discriminate. }
   destruct Hreq as [Hstep _].
   destruct (step_ok_suffix _ _ _ _ Hstep Hcr) as [Hcr1 _].
-  assert (Hssl1 : ssl false s1 = true) by (destruct Hstep as (? & _ & _ & _ & H); exact H).
   assert (Hrest : forall (hd : tok),
      inv_result s ln (do r <- parse_group f s1 ln1; Ok (hd :: fst r, snd r))).
-  { intros hd. pose proof (IH s1 ln1 Hcr1 Hssl1) as H1.
+  { intros hd. pose proof (IH s1 ln1 Hcr1) as H1.
     destruct (parse_group f s1 ln1) as [[items [s2 ln2]]|c l| |]; cbn [bind inv_result fst snd] in *; try exact I.
     - eapply step_ok_trans; eassumption.
     - destruct H1 as [H1 H2]. split; [eapply step_ok_err; eassumption|exact H2]. }
   destruct p.
-  - (* NAME *) pose proof (literal_no_pyerr P_NAME v) as Hl.
+  - pose proof (literal_no_pyerr P_NAME v) as Hl.
     destruct (literal P_NAME v) as [t|c l| |]; cbn [bind]; try exact I; [apply Hrest|exfalso; eapply Hl; reflexivity].
   - pose proof (literal_no_pyerr P_STRING v) as Hl.
     destruct (literal P_STRING v) as [t|c l| |]; cbn [bind]; try exact I; [apply Hrest|exfalso; eapply Hl; reflexivity].
   - pose proof (literal_no_pyerr P_INTEGER v) as Hl.
     destruct (literal P_INTEGER v) as [t|c l| |]; cbn [bind]; try exact I; [apply Hrest|exfalso; eapply Hl; reflexivity].
-  - (* an opening brace: the body, then the rest of this group *)
-    pose proof (IH s1 ln1 Hcr1 Hssl1) as H1.
+  - pose proof (IH s1 ln1 Hcr1) as H1.
     destruct (parse_group f s1 ln1) as [[body [s2 ln2]]|c l| |]; cbn [bind inv_result] in *; try exact I.
     2:{ destruct H1 as [H1 H2]. split; [eapply step_ok_err; eassumption|exact H2]. }
     destruct (step_ok_suffix _ _ _ _ H1 Hcr1) as [Hcr2 _].
-    assert (Hssl2 : ssl false s2 = true) by (destruct H1 as (? & _ & _ & _ & H); exact H).
-    pose proof (IH s2 ln2 Hcr2 Hssl2) as H2.
+    pose proof (IH s2 ln2 Hcr2) as H2.
     pose proof (step_ok_trans _ _ _ _ _ _ Hstep H1) as H12.
     destruct (parse_group f s2 ln2) as [[items [s3 ln3]]|c l| |]; cbn [bind inv_result fst snd] in *; try exact I.
     + eapply step_ok_trans; eassumption.
     + destruct H2 as [H2 H3]. split; [eapply step_ok_err; eassumption|exact H3].
-  - (* the closing brace *) exact Hstep.
+  - exact Hstep.
 Qed.
 
 (* ---- the argument groups of a command *)
 Definition step_ok0 (s : str) (ln : Z) (s' : str) (ln' : Z) : Prop :=
-  (s' = s /\ ln' = ln /\ ssl false s' = true) \/ step_ok s ln s' ln'.
+  (s' = s /\ ln' = ln) \/ step_ok s ln s' ln'.
 Definition inv_result0 {X} (s : str) (ln : Z) (r : res (X * state)) : Prop :=
   match r with
   | Ok (_, (s', ln')) => step_ok0 s ln s' ln'
   | PyErr c l => step_err s ln c l /\ c <> cls_eof
   | _ => True
   end.
-Lemma step_ok0_ok s ln s1 ln1 s2 ln2 : step_ok0 s ln s1 ln1 -> step_ok s1 ln1 s2 ln2 -> step_ok s ln s2 ln2.
-Proof. intros [(-> & -> & _)|H] H2; [exact H2|eapply step_ok_trans; eassumption]. Qed.
 Lemma step_ok_ok0 s ln s1 ln1 s2 ln2 : step_ok s ln s1 ln1 -> step_ok0 s1 ln1 s2 ln2 -> step_ok s ln s2 ln2.
-Proof. intros H [(-> & -> & _)|H2]; [exact H|eapply step_ok_trans; eassumption]. Qed.
-Lemma step_ok0_err s ln s1 ln1 c l : step_ok0 s ln s1 ln1 -> step_err s1 ln1 c l -> step_err s ln c l.
-Proof. intros [(-> & -> & _)|H] H2; [exact H2|eapply step_ok_err; eassumption]. Qed.
-Lemma step_ok0_suffix s ln s' ln' : step_ok0 s ln s' ln' -> no_cr s = true -> no_cr s' = true /\ ssl false s' = true.
-Proof.
-  intros [(-> & -> & H)|H] Hcr; [auto|]. split; [now apply (step_ok_suffix _ _ _ _ H Hcr)|].
-  destruct H as (? & _ & _ & _ & H); exact H.
-Qed.
+Proof. intros H [(-> & ->)|H2]; [exact H|eapply step_ok_trans; eassumption]. Qed.
 
 Lemma In_lbrace_single : In P_LBRACE [P_LBRACE]. Proof. left; reflexivity. Qed.
 
-Lemma parse_args_inv fuel : forall n s ln, no_cr s = true -> ssl false s = true ->
+Lemma parse_args_inv fuel : forall n s ln, no_cr s = true ->
   inv_result0 s ln (parse_args fuel n s ln).
 Proof.
-  induction n as [|k IH]; intros s ln Hcr Hssl.
+  induction n as [|k IH]; intros s ln Hcr.
   - cbn. left. auto.
   - cbn [parse_args].
-    pose proof (required_inv [P_LBRACE] false s ln (or_intror In_lbrace_single) Hcr Hssl) as Hreq.
+    pose proof (required_inv [P_LBRACE] false s ln (or_intror In_lbrace_single) Hcr) as Hreq.
     destruct (required [P_LBRACE] false s ln) as [[[p v] [s1 ln1]]|c l| |]; cbn [bind inv_result0]; try exact I.
     2:{ destruct Hreq as [Herr Hc]. split; [exact Herr|]. intros ->. specialize (Hc eq_refl). discriminate. }
     destruct Hreq as [Hopt _].
     destruct (step_ok_suffix _ _ _ _ Hopt Hcr) as [Hcr1 _].
-    assert (Hssl1 : ssl false s1 = true) by (destruct Hopt as (? & _ & _ & _ & H); exact H).
-    pose proof (parse_group_inv fuel s1 ln1 Hcr1 Hssl1) as Hg.
+    pose proof (parse_group_inv fuel s1 ln1 Hcr1) as Hg.
     destruct (parse_group fuel s1 ln1) as [[grp [s2 ln2]]|c l| |]; cbn [bind inv_result inv_result0] in *; try exact I.
     2:{ destruct Hg as [H1 H2]. split; [eapply step_ok_err; eassumption|exact H2]. }
     destruct (step_ok_suffix _ _ _ _ Hg Hcr1) as [Hcr2 _].
-    assert (Hssl2 : ssl false s2 = true) by (destruct Hg as (? & _ & _ & _ & H); exact H).
-    pose proof (IH s2 ln2 Hcr2 Hssl2) as Ha.
+    pose proof (IH s2 ln2 Hcr2) as Ha.
     pose proof (step_ok_trans _ _ _ _ _ _ Hopt Hg) as H12.
     destruct (parse_args fuel k s2 ln2) as [[gs [s3 ln3]]|c l| |]; cbn [bind inv_result0 fst snd] in *; try exact I.
     + right. eapply step_ok_ok0; eassumption.
@@ -334,49 +320,45 @@ Proof.
 Qed.
 
 (* a command: PyErr with class 0 is the EOFError that ends BstParser.parse *)
-Lemma parse_command_inv fuel s ln : no_cr s = true -> ssl false s = true ->
+Lemma parse_command_inv fuel s ln : no_cr s = true ->
   match parse_command fuel s ln with
   | Ok (_, (s', ln')) => step_ok s ln s' ln'
   | PyErr c l => step_err s ln c l
   | _ => True
   end.
 Proof.
-  intros Hcr Hssl. unfold parse_command.
-  pose proof (required_inv [P_NAME] true s ln (or_introl In_name_single) Hcr Hssl) as Hreq.
+  intros Hcr. unfold parse_command.
+  pose proof (required_inv [P_NAME] true s ln (or_introl In_name_single) Hcr) as Hreq.
   destruct (required [P_NAME] true s ln) as [[[p name] [s1 ln1]]|c l| |]; cbn [bind]; try exact I.
   2:{ exact (proj1 Hreq). }
   destruct Hreq as [Hstep (g & Heq & Hg & Hm & Hln & Hin)].
   assert (p = P_NAME) by (destruct Hin as [<-|[]]; reflexivity). subst p.
   destruct (match_name_inv _ _ Hm) as [Hname Hstop].
   destruct (step_ok_suffix _ _ _ _ Hstep Hcr) as [Hcr1 _].
-  assert (Hssl1 : ssl false s1 = true) by (destruct Hstep as (? & _ & _ & _ & H); exact H).
   destruct (arity name) as [n|] eqn:Ear.
-  - pose proof (parse_args_inv fuel n s1 ln1 Hcr1 Hssl1) as Ha.
+  - pose proof (parse_args_inv fuel n s1 ln1 Hcr1) as Ha.
     destruct (parse_args fuel n s1 ln1) as [[gs [s2 ln2]]|c l| |]; cbn [bind inv_result0 fst snd] in *; try exact I.
     + eapply step_ok_ok0; eassumption.
     + eapply step_ok_err; [eassumption|exact (proj1 Ha)].
   - (* not a command name: TokenRequired on the line of the name *)
     exists (g ++ name), s1. split; [rewrite Heq, app_assoc; reflexivity|].
-    assert (Hlfname : lf name = 0%Z).
-    { destruct Hname as [_ Hall]. apply (plain_facts name (forallb_impl _ _ _ name_char_plain Hall)). }
-    split; [rewrite lf_app, Hlfname; lia|].
+    split; [rewrite lf_app; lia|].
     right; right. split; [reflexivity|right]. exists g, name. auto.
 Qed.
 
 (* BstParser.parse: the loop over commands *)
-Lemma parse_loop_inv : forall fuel s ln, no_cr s = true -> ssl false s = true ->
+Lemma parse_loop_inv : forall fuel s ln, no_cr s = true ->
   match parse_loop fuel s ln with
   | PyErr c l => step_err s ln c l /\ c <> cls_eof
   | _ => True
   end.
 Proof.
-  induction fuel as [|f IH]; intros s ln Hcr Hssl; [exact I|].
+  induction fuel as [|f IH]; intros s ln Hcr; [exact I|].
   cbn [parse_loop].
-  pose proof (parse_command_inv (S (length s)) s ln Hcr Hssl) as Hc.
+  pose proof (parse_command_inv (S (length s)) s ln Hcr) as Hc.
   destruct (parse_command (S (length s)) s ln) as [[cmd [s1 ln1]]|c l| |]; try exact I.
   - destruct (step_ok_suffix _ _ _ _ Hc Hcr) as [Hcr1 _].
-    assert (Hssl1 : ssl false s1 = true) by (destruct Hc as (? & _ & _ & _ & H); exact H).
-    pose proof (IH s1 ln1 Hcr1 Hssl1) as Hl.
+    pose proof (IH s1 ln1 Hcr1) as Hl.
     destruct (parse_loop f s1 ln1) as [rest|c l| |]; cbn [bind]; try exact I.
     destruct Hl as [H1 H2]. split; [eapply step_ok_err; eassumption|exact H2].
   - destruct (c =? cls_eof) eqn:E; [exact I|]. apply N.eqb_neq in E. split; assumption.
@@ -390,16 +372,15 @@ Definition error_site (c : N) (pre post : str) : Prop :=
       (exists pre' name, pre = pre' ++ name /\ wf_name name /\ arity name = None /\ stops is_name_char post))).
 
 Theorem error_names_line_text : forall text c l,
-  no_cr text = true -> ssl false text = true -> parse_text text = PyErr c l ->
+  no_cr text = true -> parse_text text = PyErr c l ->
   exists pre post, text = pre ++ post /\ l = (1 + lf pre)%Z /\ error_site c pre post.
 Proof.
-  intros text c l Hcr Hssl H. unfold parse_text in H.
-  pose proof (parse_loop_inv (S (length text)) text 1%Z Hcr Hssl) as Hinv.
+  intros text c l Hcr H. unfold parse_text in H.
+  pose proof (parse_loop_inv (S (length text)) text 1%Z Hcr) as Hinv.
   rewrite H in Hinv. destruct Hinv as [(k & r & Heq & Hl & Hsite) Hne].
   exists k, r. split; [exact Heq|]. split; [exact Hl|].
   destruct Hsite as [Hs|[Hs|Hs]]; [contradiction|left; exact Hs|right; exact Hs].
 Qed.
-
 
 (* ---- parse_string: the text it builds has no carriage return, and its lines are the stripped
         lines of the source *)
@@ -474,25 +455,15 @@ Qed.
 Lemma lf_nonneg s : (0 <= lf s)%Z.
 Proof. unfold lf. induction s as [|c s IH]; cbn [count_char]; [lia|]. destruct (c =? 10); lia. Qed.
 
-(* the statement about list(parse_string(src)) *)
+(* the statement about list(parse_string(src)), for EVERY source *)
 Theorem error_names_line : forall src c l,
-  ssl false (text_of_string src) = true -> parse_string src = PyErr c l ->
+  parse_string src = PyErr c l ->
   (1 <= l <= Z.of_nat (Nat.max 1 (length (splitlines src))))%Z /\
   exists pre post, text_of_string src = pre ++ post /\ l = (1 + lf pre)%Z /\ error_site c pre post.
 Proof.
-  intros src c l Hssl H. destruct (text_of_string_facts src) as [Hcr Hlines].
-  destruct (error_names_line_text _ c l Hcr Hssl H) as (pre & post & Heq & Hl & Hsite).
+  intros src c l H. destruct (text_of_string_facts src) as [Hcr Hlines].
+  destruct (error_names_line_text _ c l Hcr H) as (pre & post & Heq & Hl & Hsite).
   split; [|exists pre, post; auto].
   pose proof (lf_nonneg pre). pose proof (lf_nonneg post).
   rewrite Heq, lf_app in Hlines. lia.
-Qed.
-
-(* ---- F29: without the single-line-strings hypothesis the line is wrong.  The scanner reports
-        line 1 for the name c of   "a<LF>b" c   although one line feed precedes it: get_token does
-        not count line feeds inside a STRING token. *)
-Theorem lineno_counts_refuted : exists text pre v,
-  text = pre ++ v /\ lf pre = 1%Z /\ In (0%nat, v, 1%Z) (fst (scan_tokens (S (length text)) text 1%Z)).
-Proof.
-  exists [34; 97; 10; 98; 34; 32; 99], [34; 97; 10; 98; 34; 32], [99].
-  split; [reflexivity|]. split; [reflexivity|]. vm_compute. right. left. reflexivity.
 Qed.
